@@ -60,6 +60,16 @@ Proof.
 Qed.
 Print Assumptions C04_no_user_message_until_decision_run.
 
+(* how "waiting" arises, for every role table and from ANY state: whenever an actor's own step ends with its mailbox
+   suspended — the step in which it panicked or reported an abnormality (ReportAbnormal suspends the mailbox before the
+   supervisor is told), or the step in which it began a restart (onRestart suspends) — it has no user message in flight:
+   it is waiting in the sense above, and by the two theorems above stays so until the decision / the completion. For a
+   restart this is also C03's "no user message handled between OnRestarting and the fresh instance". *)
+Theorem C04_own_step_ending_suspended_is_waiting : forall roles s u s' o a',
+  kstep roles s (LRun u) = Some (s', o) -> get s' (Z.to_nat u) = Some a' -> a_susp a' = true -> waiting (a_tok a') a'.
+Proof. exact own_step_ending_suspended_is_waiting. Qed.
+Print Assumptions C04_own_step_ending_suspended_is_waiting.
+
 (* registry well-formedness in every reachable state (used above; also the basis of C12's kernel-level reading) *)
 Theorem C04_registry_wellformed : forall roles ls s os,
   krun roles kinit ls = Some (s, os) -> forall t u, lookup t (registry s) = Some u -> exists a, get s u = Some a /\ a_tok a = t.
